@@ -199,6 +199,34 @@ func c12(ctx *Ctx) (*Outcome, error) {
 			}
 			c.sig += " ambiguous-extensionless-ref"
 		}
+		if i%7 == 3 {
+			// one keyword value reachable from two validators that land in DIFFERENT output files: an allOf member types a
+			// property as integer, a member given by reference into another document (mapped to an output of its own)
+			// types the same property as number with fractional bounds; filler documents in between make the order in
+			// which the outputs are rendered vary as much as a map can
+			first := fs.Files[0]
+			dir := filepath.Dir(first.Path)
+			const baseID = "https://example.com/detbase"
+			base := &sg.Schema{ID: baseID, Types: []string{"object"}, Props: []sg.Prop{{Name: "ratio", S: &sg.Schema{Types: []string{"number"}, Min: sg.Fp(2.5), Max: sg.Fp(7.5)}}, {Name: "share", S: &sg.Schema{Types: []string{"number"}, ExMin: 0.25, ExMax: 0.75}}}}
+			c.libs = append(c.libs, &sg.SchemaFile{Name: "detbase", Path: filepath.Join(dir, "detbase.json"), Root: base, ID: baseID})
+			c.opts = append(c.opts, "--schema-output", baseID+"=gen/detbase.go")
+			for k := 0; k < 3; k++ {
+				id := fmt.Sprintf("https://example.com/detfill%d", k)
+				fill := &sg.Schema{ID: id, Types: []string{"object"}, Props: []sg.Prop{{Name: fmt.Sprintf("fill%d", k), S: &sg.Schema{Types: []string{"integer"}, Min: sg.Fp(float64(k))}}}}
+				lf := &sg.SchemaFile{Name: fmt.Sprintf("detfill%d", k), Path: filepath.Join(dir, fmt.Sprintf("detfill%d.json", k)), Root: fill, ID: id}
+				c.libs = append(c.libs, lf)
+				c.opts = append(c.opts, "--schema-output", id+"="+fmt.Sprintf("gen/detfill%d.go", k))
+				if len(first.Root.Types) == 1 && first.Root.Types[0] == "object" {
+					first.Root.Props = append(first.Root.Props, sg.Prop{Name: fmt.Sprintf("zfill%d", k), S: &sg.Schema{Ref: fmt.Sprintf("detfill%d.json", k), Target: fill}})
+				}
+			}
+			if len(first.Root.Types) == 1 && first.Root.Types[0] == "object" {
+				first.Root.Props = append(first.Root.Props, sg.Prop{Name: "derived", S: &sg.Schema{AllOf: []*sg.Schema{
+					{Types: []string{"object"}, Props: []sg.Prop{{Name: "ratio", S: &sg.Schema{Types: []string{"integer"}}}, {Name: "share", S: &sg.Schema{Types: []string{"integer"}}}}},
+					{Ref: "detbase.json", Target: base}}}})
+			}
+			c.sig += " shared-keyword-across-outputs"
+		}
 		if i%7 == 4 {
 			// a remote reference (nothing listens there: the fetch fails at once) whose URL is the $id of several
 			// local copies that were loaded before it, all different: whatever the tool answers the reference with,
